@@ -205,10 +205,16 @@ class SmtLibSolver(Solver): # TODO this class is defined twice in pysmt. Here an
 
     @clear_pending_pop
     def pop(self, levels=1):
+        if levels > len(self.declared_vars) - 1:
+            raise PysmtValueError("Cannot pop %d levels: only %d have been "
+                                  "pushed" % (levels,
+                                              len(self.declared_vars) - 1))
+        self._send_silent_command(SmtLibCommand(smtcmd.POP, [levels]))
+        # The declarations of the popped levels are forgotten only once
+        # the solver has acknowledged the pop
         for _ in range(levels):
             self.declared_vars.pop()
             self.declared_sorts.pop()
-        self._send_silent_command(SmtLibCommand(smtcmd.POP, [levels]))
 
     def get_value(self, item):
         self._send_command(SmtLibCommand(smtcmd.GET_VALUE, [item]))
